@@ -217,7 +217,7 @@ inductive B where
   | getitem | attr | mkTuple | mkList | mkSet | mkDict
   | len | int_ | list_ | tuple_ | set_ | sorted | flatten | any | all | max | min
   | isStr | isInt | isList | isTuple | isDict | isCounter
-  | counter | reCompile | union | get | items | keys | mostCommon | lower | count | deepcopy | enumerate | strip
+  | counter | reCompile | union | get | items | keys | mostCommon | lower | count | deepcopy | enumerate | strip | dict_
   | ext (name : String)
 deriving Repr, Inhabited, DecidableEq
 
@@ -475,6 +475,19 @@ def opStrip : List PV → Except Err PV
   | [.str s] => .ok (.str (pyStrip s))
   | _ => tyErr "strip"
 
+/-- `dict(pairs)`: later duplicates overwrite, the first position is kept; `dict()` is empty; `dict(d)` copies -/
+def pairsToDict : List PV → List (PV × PV) → Except Err (List (PV × PV))
+  | [], acc => .ok acc
+  | .tuple [k, v] :: rest, acc => pairsToDict rest (PV.dset k v acc)
+  | .list [k, v] :: rest, acc => pairsToDict rest (PV.dset k v acc)
+  | _ :: _, _ => .error (.typeError "dict: pair expected")
+
+def opDict : List PV → Except Err PV
+  | [] => .ok (.dict [])
+  | [.dict kvs] => .ok (.dict kvs)
+  | [v] => (do let xs ← iterOf v; (pairsToDict xs []).map .dict)
+  | _ => tyErr "dict"
+
 def opEnumerate : List PV → Except Err PV
   | [v] => (iterOf v).map (fun xs => .list (enumFrom 0 xs))
   | _ => tyErr "enumerate"
@@ -531,6 +544,7 @@ def builtinOp : B → List PV → Except Err PV
   | .deepcopy, vs => opDeepcopy vs
   | .enumerate, vs => opEnumerate vs
   | .strip, vs => opStrip vs
+  | .dict_, vs => opDict vs
   | .ext name, _ => .error (.missingExt name)
 
 /-- mutating methods on a local name: the new value of the receiver -/
